@@ -204,7 +204,170 @@ class G_Hash(TG):
             return None
         return ignore_method_field(ctx, 'Hash')
 
-GENS = {'PartialEq': G_PartialEq(), 'Eq': G_Eq(), 'Hash': G_Hash()}
+
+def note(ctx, *tag):
+    """record a reached (trait, place, shape, parameter, spelling) branch; observation only"""
+    ctx.notes.setdefault('reach', []).append(tuple(tag))
+
+def own_fault(ctx, p):
+    """True (probability p, request stream) when this case may still receive its one invalid construct"""
+    return ctx.want_fault and ctx.fault is None and ctx.rng.random() < p
+
+PATH_FORMS = ['%s(%s)', '%s = %s', '%s = "%s"', '%s("%s")']
+PATH_FORM_NAMES = ['p(v)', 'p=v', 'p="v"', 'p("v")']
+
+class G_Clone(TG):
+    """Clone: type-level flag / bound; field-level method (structs without Copy, enums); unions: nothing"""
+    name = 'Clone'
+    def shape(self, ctx):
+        return ctx.kind + ('+Copy' if 'Copy' in ctx.traits else '')
+    def type_meta(self, ctx):
+        r, sp = ctx.rng, ctx.sp
+        copy = 'Copy' in ctx.traits
+        # per-type request: does any field get a custom method at all
+        ctx.notes['clone_methods'] = r.random() < (0.35 if copy else 0.6)
+        extra = []
+        if copy and ctx.type_params and r.random() < 0.5:
+            extra = ['%s: Copy' % t for t in ctx.type_params]
+        mode, b = gen_bound(ctx, extra)
+        if own_fault(ctx, 0.04):
+            ctx.fault = 'clone_type_bad@type'
+            k = r.randrange(5)
+            note(ctx, 'Clone', 'type', self.shape(ctx), 'fault', k)
+            return ['Clone(method(m))', 'Clone(ignore)', 'Clone = true', 'Clone(bound(T: Clone), method = "m")',
+                    'Clone(bound = 3)'][k]
+        form = 'flag' if b is None else ('nv' if ' = ' in b else 'list')
+        note(ctx, 'Clone', 'type', self.shape(ctx), 'bound:' + mode, form)
+        return trait_with_params(sp, 'Clone', [b])
+    def variant_meta(self, ctx, variant):
+        r, sp = ctx.rng, ctx.sp
+        c = r.random()
+        if c < 0.06:
+            # an empty parameter list is accepted at a variant (and means nothing)
+            note(ctx, 'Clone', 'variant', variant.kind, 'empty-list')
+            return pick(sp, ['Clone()', 'Clone( )'])
+        if own_fault(ctx, 0.05):
+            ctx.fault = 'clone_variant_bad@variant'
+            k = r.randrange(4)
+            note(ctx, 'Clone', 'variant', variant.kind, 'fault', k)
+            return ['Clone(method(m))', 'Clone = false', 'Clone(bound = false)', 'Clone'][k]
+        return None
+    def field_meta(self, ctx, field):
+        r, sp = ctx.rng, ctx.sp
+        copy = 'Copy' in ctx.traits
+        place = 'union' if ctx.kind == 'union' else \
+                ('%s/%s' % (self.shape(ctx), 'named' if field.named else 'tuple'))
+        allowed = ctx.kind == 'enum' or (ctx.kind == 'struct' and not copy)
+        c, c2 = r.random(), r.random()
+        m = pick(r, METHOD_PATHS)
+        if allowed and ctx.notes.get('clone_methods') and c < 0.5:
+            k = sp.randrange(4)
+            note(ctx, 'Clone', 'field', place, 'method', PATH_FORM_NAMES[k])
+            s = 'Clone(%s%s)' % (PATH_FORMS[k] % ('method', m), ',' if sp.random() < 0.15 else '')
+            return s
+        if c2 < 0.05:
+            note(ctx, 'Clone', 'field', place, 'empty-list')
+            return pick(sp, ['Clone()', 'Clone( )'])
+        if not allowed and own_fault(ctx, 0.2):
+            ctx.fault = 'clone_method_refused@' + place
+            k = sp.randrange(4)
+            note(ctx, 'Clone', 'field', place, 'method-refused', PATH_FORM_NAMES[k])
+            return 'Clone(%s)' % (PATH_FORMS[k] % ('method', m))
+        if own_fault(ctx, 0.06):
+            ctx.fault = 'clone_field_bad@' + place
+            k = r.randrange(11)
+            note(ctx, 'Clone', 'field', place, 'fault', k)
+            return ['Clone', 'Clone = "m"', 'Clone = false', 'Clone(ignore)', 'Clone(bound(*))',
+                    'Clone(method = "a b")', 'Clone(method(1))', 'Clone(method = "")',
+                    'Clone(method(m), method(m))', 'Clone(method(m) method(n))', 'Clone(method)'][k]
+        note(ctx, 'Clone', 'field', place, 'plain')
+        return None
+    def post(self, ctx, inp):
+        nonlist_educe(ctx, inp, 'Clone')
+
+def nonlist_educe(ctx, inp, who):
+    """`#[educe]` / `#[educe = ".."]` (not a list) on a variant or a field is skipped by every
+    build_from_attributes; on the type itself lib.rs refuses it.  Called from the post hooks."""
+    if ctx.notes.get('nonlist_done'):
+        return
+    ctx.notes['nonlist_done'] = True
+    r = ctx.rng
+    c, where, form = r.random(), r.randrange(3), r.randrange(2)
+    a = [Attr('educe', 'path'), Attr('educe', 'nv', '"Clone"')][form]
+    if c >= 0.08:
+        return
+    items = []
+    if inp.kind == 'enum':
+        items = [('variant', v) for v in inp.variants] + [('field', f) for v in inp.variants for f in v.fields]
+    else:
+        items = [('field', f) for f in inp.fields]
+    if where == 0:
+        if own_fault(ctx, 1.0):
+            ctx.fault = 'educe_nonlist@type'
+            note(ctx, who, 'type', ctx.kind, 'fault', 'non-list educe attribute', form)
+            inp.attrs.append(a)
+        return
+    if items:
+        place, it = items[r.randrange(len(items))]
+        it.attrs.insert(r.randrange(len(it.attrs) + 1), a)
+        note(ctx, who, place, ctx.kind, 'non-list educe attribute (skipped)', form)
+
+class G_Copy(TG):
+    """Copy: alone = flag / bound at type level, nothing elsewhere; with Clone = flag only, and
+    whatever is written at variants / fields is never looked at"""
+    name = 'Copy'
+    def type_meta(self, ctx):
+        r, sp = ctx.rng, ctx.sp
+        if 'Clone' in ctx.traits:
+            if own_fault(ctx, 0.06):
+                ctx.fault = 'copy_bound_with_clone@type'
+                k = r.randrange(4)
+                note(ctx, 'Copy', 'type', ctx.kind + '+Clone', 'bound-refused', k)
+                return ['Copy(bound(*))', 'Copy(bound = false)', 'Copy(bound(T: Copy))', 'Copy(bound = "")'][k]
+            k = sp.randrange(3)
+            note(ctx, 'Copy', 'type', ctx.kind + '+Clone', 'flag', ['Copy', 'Copy()', 'Copy( )'][k])
+            return ['Copy', 'Copy()', 'Copy'][k]
+        mode, b = gen_bound(ctx)
+        form = 'flag' if b is None else ('nv' if ' = ' in b else 'list')
+        note(ctx, 'Copy', 'type', ctx.kind, 'bound:' + mode, form)
+        return trait_with_params(sp, 'Copy', [b])
+    def variant_meta(self, ctx, variant):
+        r, sp = ctx.rng, ctx.sp
+        c = r.random()
+        if 'Clone' in ctx.traits:
+            if c < 0.06:
+                k = r.randrange(5)
+                note(ctx, 'Copy', 'variant', '+Clone', 'unchecked', k)
+                return ['Copy', 'Copy(bound(*))', 'Copy = 3', 'Copy(anything(at, all))', 'Copy()'][k]
+            return None
+        if c < 0.05:
+            note(ctx, 'Copy', 'variant', 'alone', 'empty-list')
+            return 'Copy()'
+        if own_fault(ctx, 0.05):
+            ctx.fault = 'copy_variant_bad@variant'
+            k = r.randrange(4)
+            note(ctx, 'Copy', 'variant', 'alone', 'fault', k)
+            return ['Copy', 'Copy(bound(*))', 'Copy = false', 'Copy(bound = false)'][k]
+        return None
+    def field_meta(self, ctx, field):
+        r, sp = ctx.rng, ctx.sp
+        c = r.random()
+        if 'Clone' in ctx.traits:
+            if c < 0.05:
+                k = r.randrange(5)
+                note(ctx, 'Copy', 'field', ctx.kind + '+Clone', 'unchecked', k)
+                return ['Copy', 'Copy(method(m))', 'Copy = false', 'Copy(bound(*))', 'Copy()'][k]
+            return None
+        if own_fault(ctx, 0.06):
+            ctx.fault = 'copy_field@' + ctx.kind
+            k = r.randrange(4)
+            note(ctx, 'Copy', 'field', ctx.kind, 'refused', k)
+            return ['Copy', 'Copy()', 'Copy = true', 'Copy(ignore)'][k]
+        return None
+    def post(self, ctx, inp):
+        nonlist_educe(ctx, inp, 'Copy')
+
+GENS = {'PartialEq': G_PartialEq(), 'Eq': G_Eq(), 'Hash': G_Hash(), 'Clone': G_Clone(), 'Copy': G_Copy()}
 
 # ---------------------------------------------------------------- attribute assembly
 OTHER_ATTRS = [Attr('doc', 'nv', '" some docs"'), Attr('allow', 'list', 'dead_code'),
@@ -339,6 +502,7 @@ def gen_case(seed, spseed, modelled, want_fault=False, kinds=('struct', 'enum', 
             GENS[t].post(ctx, inp)
     inp.fault = ctx.fault
     inp.traits = traits
+    inp.notes = ctx.notes
     return inp
 
 if __name__ == '__main__':
